@@ -87,6 +87,7 @@ struct World {
     events: Vec<Ev>,
     log: Vec<String>,
     next_actor: usize,
+    doing: String, // the calls of the step in flight (for the replay of a panic)
 }
 
 fn small_scalar(rng: &mut Rng) -> ScalarValue {
@@ -101,8 +102,16 @@ fn small_scalar(rng: &mut Rng) -> ScalarValue {
 
 /// one edit through the Transactable interface (works for AutoCommit and for manual transactions);
 /// errors (e.g. an object that is not visible at the isolation heads) are ignored
-fn edit<T: Transactable>(tx: &mut T, rng: &mut Rng) {
-    match rng.below(10) {
+fn edit<T: Transactable>(tx: &mut T, rng: &mut Rng, trace: &mut String) {
+    let choice = rng.below(10);
+    trace.push_str(match choice {
+        0..=3 => " put(ROOT,k);",
+        4 => " delete(ROOT,k);",
+        5 | 6 => " get(ROOT,l)/put_object(List); insert|delete;",
+        7 | 8 => " get(ROOT,t)/put_object(Text); splice_text;",
+        _ => " get(ROOT,c); increment|put counter;",
+    });
+    match choice {
         0..=3 => {
             let k = *rng.pick(&["a", "b", "k1", "zz"]);
             let _ = tx.put(ROOT, k, small_scalar(rng));
@@ -247,7 +256,9 @@ fn record_created(
         }
         Some(hs) => {
             let want: Vec<ChangeHash> = hs.iter().copied().collect::<BTreeSet<_>>().into_iter().collect();
-            if m.deps != want {
+            if !well_formed_heads(hs, &applied) {
+                rep.count("isolated_commits_at_ill_formed_heads");
+            } else if m.deps != want {
                 rep.fail(&["C04", "C29"], "meta|deps-isolated", "deps of an isolated change are not the isolation heads", json!({"log": w.log, "how": how}));
             }
             let ab = m.actor.to_bytes();
@@ -407,7 +418,7 @@ fn note_heads(w: &mut World, r: usize, after: &str) {
     w.events.push(Ev::Heads { rep: r, applied, heads, after: after.to_string() });
 }
 
-fn pick_heads(w: &mut World, r: usize, rng: &mut Rng) -> Option<Vec<ChangeHash>> {
+fn pick_heads(w: &mut World, r: usize, rng: &mut Rng, allow_invalid: bool) -> Option<Vec<ChangeHash>> {
     let applied = w.reps[r].applied();
     if applied.is_empty() {
         return None;
@@ -428,18 +439,31 @@ fn pick_heads(w: &mut World, r: usize, rng: &mut Rng) -> Option<Vec<ChangeHash>>
     hs.sort();
     hs.dedup();
     if hs.is_empty() {
-        None
-    } else {
-        Some(hs)
+        return None;
     }
+    // separate, labelled stream of ill-formed head lists: a hash the document does not know (the code
+    // drops it: heads_to_nodes / hash_to_index), or the same head twice
+    if allow_invalid && rng.chance(1, 10) {
+        if rng.chance(1, 2) {
+            hs.push(ChangeHash(rng.bytes(32).try_into().unwrap()));
+        } else {
+            hs.push(hs[0]);
+        }
+    }
+    Some(hs)
+}
+
+fn well_formed_heads(hs: &[ChangeHash], applied: &[ChangeHash]) -> bool {
+    let set: HashSet<&ChangeHash> = hs.iter().collect();
+    set.len() == hs.len() && hs.iter().all(|h| applied.contains(h))
 }
 
 /// one local transaction on replica r (0..3 edits, then commit)
-fn do_transaction(w: &mut World, rep: &mut Report, r: usize, rng: &mut Rng) {
+fn do_transaction(w: &mut World, rep: &mut Report, r: usize, rng: &mut Rng, min_edits: u64) {
     let applied = w.reps[r].applied();
     let heads_before = w.reps[r].heads();
     let actor = w.reps[r].actor();
-    let n_edits = rng.range(0, 3);
+    let n_edits = rng.range(min_edits, 3);
     let isolated = w.reps[r].isolated;
     let mut iso: Option<Vec<ChangeHash>> = None;
     let mut how = "autocommit";
@@ -450,7 +474,7 @@ fn do_transaction(w: &mut World, rep: &mut Report, r: usize, rng: &mut Rng) {
                 how = "autocommit-isolated";
             }
             for _ in 0..n_edits {
-                edit(a, rng);
+                edit(a, rng, &mut w.doing);
             }
             a.commit()
         }
@@ -458,7 +482,7 @@ fn do_transaction(w: &mut World, rep: &mut Report, r: usize, rng: &mut Rng) {
             how = "manual";
             let mut tx = m.transaction();
             for _ in 0..n_edits {
-                edit(&mut tx, rng);
+                edit(&mut tx, rng, &mut w.doing);
             }
             tx.commit().0
         }
@@ -480,7 +504,7 @@ fn do_transaction(w: &mut World, rep: &mut Report, r: usize, rng: &mut Rng) {
 
 /// a manual transaction isolated with transaction_at(heads)
 fn do_transaction_at(w: &mut World, rep: &mut Report, r: usize, rng: &mut Rng) {
-    let hs = match pick_heads(w, r, rng) {
+    let hs = match pick_heads(w, r, rng, true) {
         Some(h) => h,
         None => return,
     };
@@ -495,7 +519,7 @@ fn do_transaction_at(w: &mut World, rep: &mut Report, r: usize, rng: &mut Rng) {
                 Err(_) => return,
             };
             for _ in 0..n_edits {
-                edit(&mut tx, rng);
+                edit(&mut tx, rng, &mut w.doing);
             }
             tx.commit().0
         }
@@ -575,15 +599,17 @@ fn build_world(rng: &mut Rng, steps: usize, rep: &mut Report, w: &mut World) {
         D::Auto(AutoCommit::new().with_actor(a0.clone()))
     };
     w.reps.push(Rep { d: first, isolated: false, own_actors: vec![a0], head_sets: vec![] });
-    do_transaction(w, rep, 0, rng);
+    do_transaction(w, rep, 0, rng, 1);
     note_heads(w, 0, "first transaction");
     for _ in 0..steps {
         let r = rng.below(w.reps.len() as u64) as usize;
         let is_auto = matches!(w.reps[r].d, D::Auto(_));
         let what: String;
-        match rng.below(100) {
+        let step_kind = rng.below(100);
+        w.doing = format!("r{} (isolated={}) step kind {}:", r, w.reps[r].isolated, step_kind);
+        match step_kind {
             0..=39 => {
-                do_transaction(w, rep, r, rng);
+                do_transaction(w, rep, r, rng, 0);
                 what = "transaction".into();
             }
             40..=47 => {
@@ -592,7 +618,7 @@ fn build_world(rng: &mut Rng, steps: usize, rep: &mut Report, w: &mut World) {
             }
             48..=57 => {
                 if is_auto {
-                    if let Some(hs) = pick_heads(w, r, rng) {
+                    if let Some(hs) = pick_heads(w, r, rng, false) {
                         if let D::Auto(a) = &mut w.reps[r].d {
                             a.isolate(&hs);
                         }
@@ -645,10 +671,24 @@ fn build_world(rng: &mut Rng, steps: usize, rep: &mut Report, w: &mut World) {
                 }
                 what = "fork".into();
             }
+            82..=86 if w.reps[r].own_actors.len() >= 2 => {
+                // back to an earlier own actor and commit at once: that actor's last change is an ancestor
+                // of the heads but usually not a head, so it must be added to the deps
+                let cur = w.reps[r].actor();
+                let others: Vec<ActorId> = w.reps[r].own_actors.iter().filter(|a| **a != cur).cloned().collect();
+                if !others.is_empty() {
+                    let a = rng.pick(&others).clone();
+                    w.reps[r].set_actor(a);
+                    w.log.push(format!("r{} set_actor (back)", r));
+                    rep.count("set_actor_back");
+                    do_transaction(w, rep, r, rng, 2);
+                }
+                what = "set_actor back + transaction".into();
+            }
             82..=88 => {
                 // a new actor, or back to an actor this replica used before (its last change is then
                 // usually not a head any more: the extra dependency of transaction_args)
-                let a = if w.reps[r].own_actors.len() > 1 && rng.chance(1, 2) {
+                let a = if w.reps[r].own_actors.len() > 1 && rng.chance(2, 3) {
                     rng.pick(&w.reps[r].own_actors).clone()
                 } else {
                     let a = new_actor(w, rng);
@@ -775,10 +815,11 @@ pub fn run(rng: &mut Rng, tier: &str, out: &str) -> Report {
     let per_shard = if thorough { 8 } else { 4 };
     let mut group_defs: Vec<String> = vec![];
     let mut group_cases: Vec<(String, serde_json::Value)> = vec![];
+    let mut sig_seen: HashMap<String, u32> = HashMap::new();
     scenario_empty_then_isolated(&mut rep);
     for ui in 0..n_univ {
         let steps = if thorough { rng.range(20, 90) } else { rng.range(15, 50) } as usize;
-        let mut w = World { reps: vec![], known: HashMap::new(), events: vec![], log: vec![], next_actor: 0 };
+        let mut w = World { reps: vec![], known: HashMap::new(), events: vec![], log: vec![], next_actor: 0, doing: String::new() };
         let mut sub = Report::new("meta");
         let res = guard(|| build_world(rng, steps, &mut sub, &mut w));
         // merge the sub-report (kept separate so that a panic does not lose what was found before it)
@@ -786,16 +827,30 @@ pub fn run(rng: &mut Rng, tier: &str, out: &str) -> Report {
             rep.add(k, *v);
         }
         for f in sub.failures.drain(..) {
-            if rep.failures.len() < 200 {
+            // the same signature is kept three times at most, so that a recorded finding cannot crowd
+            // a new failure out of the bounded list
+            let sig = f["signature"].as_str().unwrap_or("").to_string();
+            let n = sig_seen.entry(sig).or_insert(0u32);
+            *n += 1;
+            if *n <= 3 && rep.failures.len() < 200 {
                 rep.failures.push(f);
+            } else {
+                rep.count("failures_not_listed_repeated_signature");
             }
         }
         if let Err(p) = res {
             rep.count("generator_panics");
+            let psig = format!("panic|history|{}", p.signature());
+            let n = sig_seen.entry(psig).or_insert(0u32);
+            *n += 1;
+            if *n > 3 {
+                rep.count("failures_not_listed_repeated_signature");
+                continue;
+            }
             // a panic of an editing / merge / apply call is not a statement about C04 or C10
             rep.fail(&["C37", "C05"], &format!("panic|history|{}", p.signature()),
                 &format!("a public call panicked while generating a history: {} at {}", p.message, p.location),
-                json!({"log": w.log, "universe": ui}));
+                json!({"log": w.log, "in_flight": w.doing, "universe": ui}));
             continue;
         }
         // ---- universe: every change created in this world, first-seen order ----
